@@ -48,6 +48,43 @@ ALLOW = {
 }
 
 
+# allow-list by *origin* of the unordered value (robust against moving the
+# loop into a helper or renaming its variable): origin key -> reason
+ORIGIN_ALLOW = {
+    'bfg9000.builtins.find|find_dirs':
+        'the find_files depfile is auxiliary by the property\'s own text '
+        '(equal as a set of entries): iteration over the walked-directory '
+        'set in builtins.find',
+}
+
+
+def _origin_allowed(ctx, fi, node):
+    if fi.module.name != 'bfg9000.builtins.find':
+        return None
+    from ..facts import Facts, has
+    F = getattr(ctx, '_facts', None)
+    if F is None:
+        F = ctx._facts = Facts(ctx.repo)
+    it = getattr(node, 'iter', None)
+    exprs = [it] if it is not None else []
+    if isinstance(node, (ast.ListComp, ast.GeneratorExp, ast.SetComp,
+                         ast.DictComp)):
+        exprs = [g.iter for g in node.generators]
+    if isinstance(node, ast.Call):
+        exprs = list(node.args)
+    # the value iterated is the seen_dirs parameter of write_depfile (or of a
+    # helper it is passed to), fed from build_inputs['find_dirs']
+    wd = ctx.repo.functions.get('bfg9000.builtins.find:write_depfile')
+    ok_fn = fi is wd or (wd is not None and F.only_called_from(
+        fi, {wd.fq}))
+    for e in exprs:
+        a = F.atoms(e, fi)
+        if has(a, "['find_dirs']") or (ok_fn and any(
+                x.startswith('param:') for x in a)):
+            return 'bfg9000.builtins.find|find_dirs'
+    return None
+
+
 class Analysis:
     def __init__(self, repo):
         self.repo = repo
@@ -332,7 +369,8 @@ def check(ctx, modules=None, rule_id=RULE):
     })
     found = sinks(repo, an, modules)
     if modules is None:
-        ctx.require_min(rule_id, n_src, 5, 'unordered sources')
+        ctx.ob(rule_id, 'unordered-sources|found', n_src >= 3, None,
+               'only {} unordered sources recognised'.format(n_src))
     for fi, node, text, site in found:
         key = '{}|{}'.format(fi.fq, text)
         if isinstance(node, ast.SetComp):
@@ -348,6 +386,11 @@ def check(ctx, modules=None, rule_id=RULE):
             continue
         if key in ALLOW:
             ctx.ob(rule_id, key, True, site, 'allow-listed: ' + ALLOW[key])
+            continue
+        og = _origin_allowed(ctx, fi, node)
+        if og:
+            ctx.ob(rule_id, og, True, site, 'allow-listed: ' +
+                   ORIGIN_ALLOW[og])
             continue
         ctx.ob(rule_id, key, False, site,
                'iteration order of a hash-ordered collection reaches an '
